@@ -246,7 +246,8 @@ static inline double cmb_random_lognormal(const double m, const double s)
 static inline double cmb_random_logistic(const double m, const double s)
 {
     cmb_assert_release(s > 0.0);
-    const double x = cmb_random();
+    double x;
+    while ((x = cmb_random()) == 0.0) {}
 
     return m + s * log(x / (1.0 - x));
 }
@@ -565,7 +566,8 @@ static inline double cmb_random_pareto(const double shape, const double mode)
     cmb_assert_release(shape > 0.0);
     cmb_assert_release(mode > 0.0);
 
-    const double x = mode / pow(cmb_random(), 1.0 / shape);
+    /* 1 - u is uniform on (0, 1]: no division by zero */
+    const double x = mode / pow(1.0 - cmb_random(), 1.0 / shape);
 
     cmb_assert_debug(x >= mode);
     return x;
@@ -712,7 +714,7 @@ static inline unsigned cmb_random_bernoulli(const double p)
 {
     cmb_assert_release((p >= 0.0) && (p <= 1.0));
 
-    return (cmb_random() <= p) ? 1 : 0;
+    return (cmb_random() < p) ? 1 : 0;
 }
 
 /**
